@@ -2,10 +2,7 @@
 import json
 from srcheck import props
 
-NA = [
-    {"property_id": "C17", "reason": "exactness of the Euler-tour / sparse-table index arithmetic is a loop-invariant argument over array indices and runtime values; no necessary structural condition exists that is not a restatement of the code (DESIGN.md section 10)"},
-    {"property_id": "C18", "reason": "bit-loop semantics of the mask routines (run counting, end handling, round trips) are value-level; nothing in the shape of the code separates a right from a wrong run count without executing it (DESIGN.md section 10)"},
-]
+NA = []  # every property has at least one clause decided statically (DESIGN.md section 10 lists what is declined)
 
 checks = []
 for pid, rules in props.PROPERTY_RULES.items():
